@@ -199,6 +199,15 @@ def dup_invariant(acc, text, mode):
 EXTRA_CFGS = [None, 'sec_within', 'segment', 'segment,sec_within', 'sec_colon_cautious', 'ocr_scrub,parse_qq']
 
 
+def single_leading_twprge(text):
+    """The text opens with a complete Twp/Rge token and holds no other (whole or partial) Twp/Rge token."""
+    for tok in ('T154N-R97W', 'T1S-R2E'):
+        if text.startswith(tok):
+            rest = text[len(tok):]
+            return not any(t in rest for t in TWPRGE_TOKENS)
+    return False
+
+
 def fallback_class(acc, cls, text, extra=None):
     cfg = 'sec_colon_required' if cls == 'no_colon_required' else None
     if extra:
@@ -208,9 +217,10 @@ def fallback_class(acc, cls, text, extra=None):
     key = f"class|{cls}|{cfg}|{text}"
     case = {'k': 'class', 'cls': cls, 'text': text, 'extra': extra}
     # ('required' and 'cautious' together: required wins - the same single fallback tract is expected)
-    if extra and 'segment' in extra and cls != 'no_twprge':
+    if extra and 'segment' in extra and cls != 'no_twprge' and not single_leading_twprge(text):
         # segmenting splits the text at every Twp/Rge and lets each chunk fall back on its own (that is the feature);
-        # 'one tract with the entire text' is only defined for it when there is no Twp/Rge to split at
+        # 'one tract with the entire text' is only defined for it when there is nothing to split: no Twp/Rge at all, or
+        # one Twp/Rge that opens the text (the only chunk is then the whole text)
         return
     try:
         d = _p.PLSSDesc(text, config=cfg)
@@ -271,7 +281,7 @@ def run_unit(unit, tier):
                  'no_colon_required': V_NO_COLON}[unit['cls']]
         depth = soup.DEPTH[tier] if unit['cls'] != 'no_colon_required' else soup.DEPTH[tier] + 1
         for text in class_texts(vocab, unit['first'], depth):
-            for extra in (EXTRA_CFGS if tier == 'thorough' else EXTRA_CFGS[:2] + EXTRA_CFGS[4:5]):
+            for extra in (EXTRA_CFGS if tier == 'thorough' else EXTRA_CFGS[:3] + EXTRA_CFGS[4:5]):
                 fallback_class(acc, unit['cls'], text, extra)
     else:
         last = None
